@@ -374,7 +374,7 @@ Full statement aimed at (`compile_correct`, NOT proved): the same for every tree
 `InFrag 4` extended by balancing groups, `UpdateBumpalong` and ECMAScript boundaries, both directions.  Proved:
 the tiers 1–3 below (left to right; no `Loop`/`Lazyloop`, `Ref`, conditionals, lookbehind). -/
 section compiler
-open RegexVerif.Compile RegexVerif.Writer
+open RegexVerif.Compile RegexVerif.Writer RegexVerif.Generated.Opcodes
 
 /-- **`compile_correct_T3`** — fragment of tier 3: Empty, Nothing, the anchors `^ $ \A \z \Z \G \b \B`, One, Notone, Set,
     Multi, Concatenate, Alternate, Capture, Group (tier 1); the single-character loops `Oneloop/Notoneloop/Setloop`,
@@ -471,6 +471,60 @@ theorem compile_correct_find_T3 (ti : TreeInfo) (t : GoNode) (TPx : TP) (env : V
     cases hatt : Spec.attempt se pat false j with
     | none => rfl
     | some x => rw [hatt] at hm; simp at hm
+
+/-! ### non-vacuity (compiler correctness): four concrete trees inside the fragments, the hypotheses of the theorems
+met, and both sides of the conclusion evaluated -/
+
+/-- `(a|ab)(c|bcd)` on "abcd" (tier 1): the first alternative `a` wins, then `bcd`; captures per group -/
+example : InFrag 1 ccTP (ccInfo 3) ccT1 = true ∧ treeWf (ccInfo 3) ccT1 = true ∧
+    (toPatRoot ccTP false ccT1).isSome = true := by decide
+example : ccRun (ccInfo 3) ccT1 (ccEnv [] (ccSe [97, 98, 99, 100])) 0 60 = some (true, 4, [[0, 4], [0, 1], [1, 3]]) := by
+  decide
+example : (toPatRoot ccTP false ccT1).map (fun p => Spec.attempt (ccSe [97, 98, 99, 100]) p false 0) =
+    some (some { pos := 4, caps := [(1, 0, 1), (2, 1, 3), (0, 0, 4)] }) := by decide
+/-- the hypotheses of `compile_correct_T1` hold for this tree and input, so its conclusion does -/
+example : ∃ s0 s n, VM.init (emit (ccInfo 3) ccT1) (0 : Nat) = .ok s0 ∧
+    (∀ fuel, n ≤ fuel → (VM.run (emit (ccInfo 3) ccT1) (ccEnv [] (ccSe [97, 98, 99, 100])) fuel s0).1 = .done s) ∧
+    VM.matched s = true :=
+  match h : toPatRoot ccTP false ccT1 with
+  | some pat =>
+    let ⟨s0, s, n, h1, h2, hag⟩ := compile_correct_T1 (ccInfo 3) ccT1 ccTP _ (ccSe [97, 98, 99, 100]) pat 0 (by decide) (by decide) h
+      (ccRel _ _) (by decide) (by decide)
+    ⟨s0, s, n, h1, h2, by
+      rw [hag.verdict]
+      have : (toPatRoot ccTP false ccT1).map (fun p => (Spec.attempt (ccSe [97, 98, 99, 100]) p false 0).isSome) = some true := by
+        decide
+      rw [h] at this
+      simpa using this⟩
+  | none => absurd h (by decide)
+
+/-- `a*ab` on "aaab" (tier 2, not tier 1): the greedy loop gives one `a` back -/
+example : InFrag 1 ccTP (ccInfo 1) ccT2 = false ∧ InFrag 2 ccTP (ccInfo 1) ccT2 = true ∧ treeWf (ccInfo 1) ccT2 = true := by
+  decide
+example : ccRun (ccInfo 1) ccT2 (ccEnv [] (ccSe [97, 97, 97, 98])) 0 60 = some (true, 4, [[0, 4]]) := by decide
+example : (toPatRoot ccTP false ccT2).map (fun p => Spec.attempt (ccSe [97, 97, 97, 98]) p false 0) =
+    some (some { pos := 4, caps := [(0, 0, 4)] }) := by decide
+
+/-- `(?>a+)b` on "aab" (tier 3, not tier 2) -/
+example : InFrag 2 ccTP (ccInfo 1) ccT3 = false ∧ InFrag 3 ccTP (ccInfo 1) ccT3 = true ∧ treeWf (ccInfo 1) ccT3 = true := by
+  decide
+example : ccRun (ccInfo 1) ccT3 (ccEnv [] (ccSe [97, 97, 98])) 0 60 = some (true, 3, [[0, 3]]) := by decide
+example : (toPatRoot ccTP false ccT3).map (fun p => Spec.attempt (ccSe [97, 97, 98]) p false 0) =
+    some (some { pos := 3, caps := [(0, 0, 3)] }) := by decide
+
+/-- `(?=a)[a-z]` on "ab" (tier 3, one set whose payload `readSet` reads as `[a-z]`): matches at 0, fails at 1 -/
+example : InFrag 3 ccTP (ccInfo 1) ccT4 = true ∧ treeWf (ccInfo 1) ccT4 = true ∧
+    (codeFromTree (mainCfg (ccInfo 1)) ccT4).2.sets = [ccAZ] := by decide
+example : ccRun (ccInfo 1) ccT4 (ccEnv [ccAZ] (ccSe [97, 98])) 0 60 = some (true, 1, [[0, 1]]) ∧
+    ccRun (ccInfo 1) ccT4 (ccEnv [ccAZ] (ccSe [97, 98])) 1 60 = some (false, 1, [[]]) := by decide
+example : (toPatRoot ccTP false ccT4).map (fun p => (Spec.attempt (ccSe [97, 98]) p false 0, Spec.attempt (ccSe [97, 98]) p false 1)) =
+    some (some { pos := 1, caps := [(0, 0, 1)] }, none) := by decide
+/-- `EnvRel` is satisfiable with a non-trivial set table -/
+example : EnvRel ccTP (codeFromTree (mainCfg (ccInfo 1)) ccT4).2.sets
+    (ccEnv (codeFromTree (mainCfg (ccInfo 1)) ccT4).2.sets (ccSe [97, 98])) (ccSe [97, 98]) := ccRel _ _
+/-- a tree outside every tier: a backreference is tier 4, `UpdateBumpalong` is in no tier -/
+example : InFrag 3 ccTP (ccInfo 2) (.capture 0 (-1) (.concat [.capture 1 (-1) (.char opOne false false 97), .ref false false 1])) = false ∧
+    InFrag 4 ccTP (ccInfo 1) (.capture 0 (-1) (.concat [.bare opUpdateBumpalong, .char opOne false false 97])) = false := by decide
 
 end compiler
 
